@@ -73,7 +73,11 @@ def _call(inp, parent=PARENTS[0]):
 
 
 def _impl_segment(inp):
-    from soundevent.constants import uuid_namespace
+    import soundevent.constants as constants
+    uuid_namespace = getattr(constants, "uuid_namespace", None)     # tolerant: a renamed constant breaks the tie only
+    if not isinstance(uuid_namespace, _uuid.UUID):
+        cands = [v for v in vars(constants).values() if isinstance(v, _uuid.UUID)]
+        uuid_namespace = cands[0] if len(cands) == 1 else None       # the package's only UUID constant, whatever its name
     clip, segs = _call(inp)
     _clip2, segs2 = _call(inp)          # determinism = two calls
     side = {}
@@ -86,6 +90,9 @@ def _impl_segment(inp):
     if any(x.recording is not clip.recording and x.recording != clip.recording for x in segs):
         side["other_recording"] = True
     for x in segs:
+        if not isinstance(uuid_namespace, _uuid.UUID):
+            side["uuid_formula"] = True
+            break
         want = _uuid.uuid5(uuid_namespace, f"segment_clip:{clip.uuid}:{x.start_time}:{x.end_time}")
         if x.uuid != want:
             side["uuid_formula"] = True
@@ -192,7 +199,8 @@ def _impl_id_classes(inp):
 
 
 OPS = {
-    "segment": Op("segment", _impl_wrapper, holds=_holds_side, nontrivial=_nontrivial),
+    "segment": Op("segment", _impl_wrapper, holds=_holds_side, nontrivial=_nontrivial, shrink=True,
+                  valid=lambda i: frac(i["start"]) <= frac(i["end"])),
     "segment_free": Op("segment_free", _impl_wrapper, holds=_holds_side, nontrivial=_nontrivial,
                        compare=_free_compare, mode="tolerance", model_op="segment"),
     "id_classes": Op("id_classes", _impl_id_classes,
@@ -353,20 +361,36 @@ def _run_exact(ctx, inputs):
     _CACHE.clear()
 
 
-def run(ctx):
-    ctx.run_corpus(OPS)
+def _stage_grid(ctx):
     top, den = (24, 4) if ctx.thorough() else (12, 2)
     _run_exact(ctx, _malformed_cases())
     _run_exact(ctx, _grid_cases(top, den))
     ctx.exhaustive["segment grid"] = (f"clip start <= end in i/{den}, i=0..{top}; duration in j/4, j=1..20; hop None or j/4, "
                                       "j=1..20; both flags")
+
+
+def _stage_random(ctx):
     _run_exact(ctx, _random_dyadic(ctx.rng, ctx.budget(3000, 40000)))
+
+
+def _stage_ids(ctx):
     ctx.run_cases(OPS["id_classes"], _id_cases(ctx.rng, ctx.budget(300, 3000)))
+
+
+def _stage_free(ctx):
     free = list(_free_cases(ctx.rng, ctx.budget(3000, 40000)))
     ctx.run_cases(OPS["segment_free"], free)
     for k, v in sorted(_FREE_STATS.items()):
         ctx.tally(k, v)
     _FREE_STATS.clear()
+
+
+def run(ctx):
+    ctx.stage("corpus", ctx.run_corpus, OPS)
+    ctx.stage("exhaustive-grid", _stage_grid, ctx)
+    ctx.stage("random-dyadic", _stage_random, ctx)
+    ctx.stage("identifier-keys", _stage_ids, ctx)
+    ctx.stage("free-mode-monitor", _stage_free, ctx)
 
 
 def search(ctx, failures):
